@@ -108,6 +108,11 @@ func httpParseResponseLine(line []byte) (resp httpResponseLine, err error) {
 		return resp, ErrMalformedResponse
 	}
 
+	// Status code is exactly three digits (RFC 7230, section 3.1.2); "0101" is
+	// not the status 101.
+	if len(status) != 3 {
+		return resp, ErrMalformedResponse
+	}
 	var convErr error
 	resp.status, convErr = asciiToInt(status)
 	if convErr != nil {
